@@ -29,7 +29,7 @@ RULE = (
     "non-exception classes with recording __new__/__init__ / a metaclass-callable class / exception instances / "
     "modules / builtins eval, print, type, object - reached by dotted paths of length 1-4 through module and class "
     "attributes - as well as exception classes (incl. nested and aliased ones, one whose constructor always fails), "
-    "unresolvable names, exc_module=None, nodes given as the wrapper object of pickle-encoded results instead of the dict form, a planted loaded module that serves names lazily by importing another module, modules that are not loaded (including a submodule of a planted importable-but-unloaded package, and a planted importable-but-unloaded "
+    "unresolvable names, exc_module=None, nodes given as the wrapper object of pickle-encoded results instead of the dict form, planted loaded modules that serve names lazily by importing another module (a module-level __getattr__; an instance of a ModuleType subclass with a class-level __getattr__ and a property), modules that are not loaded (including a submodule of a planted importable-but-unloaded package, and a planted importable-but-unloaded "
     "module whose import leaves a marker); args of any JSON shape. Oracle: the outcome is a BaseException instance, or "
     "SecurityError, or pydantic ValidationError/ValueError - nothing else; no trap was called or instantiated; "
     "set(sys.modules) is unchanged and the marker absent; an unresolvable name yields a synthetic Exception subclass "
@@ -117,12 +117,12 @@ TRAP_TARGETS = [
 EXC_TARGETS = [
     ("vt_trapmod", "GoodExc"), ("vt_trapmod", "GoodBase"), ("vt_trapmod", "NotExc.InnerExc"), ("vt_trapmod", "exc_type_alias"),
     ("vt_trapmod", "sub.SubExc"), ("vt_trapmod.sub", "SubExc"), ("builtins", "ValueError"), ("builtins", "KeyboardInterrupt"),
-    ("vt_trapmod", "CtorFails"), ("vt_trapmod_lazy", "Eager"), ("taskiq.exceptions", "TaskiqError"), ("asyncio", "CancelledError"), ("vt_trapmod", "exc_instance.__class__"),
+    ("vt_trapmod", "CtorFails"), ("vt_trapmod_lazy", "Eager"), ("vt_trapmod_lazysub", "Eager"), ("taskiq.exceptions", "TaskiqError"), ("asyncio", "CancelledError"), ("vt_trapmod", "exc_instance.__class__"),
 ]
 UNRESOLVED = [
     ("vt_trapmod", "nope"), ("vt_trapmod", "GoodExc.nope"), ("vt_trapmod", "sub.nope.deeper"), ("builtins", "NoSuchError"),
     ("vt_unloaded_trap", "Boom"), ("vt_unloaded_trap", "run"), ("not.a.loaded.module", "X"), ("vt_unloaded_pkg.sub", "Boom"), ("vt_unloaded_pkg.nosuch", "X"), ("vt_unloaded_pkg", "sub.Boom"), ("json.nonexistent_submodule", "X"),
-    ("vt_trapmod_lazy", "LazyExc"), ("vt_trapmod_lazy", "lazy_func"), ("vt_trapmod_lazy", "lazy_sub.run"), ("vt_trapmod_lazy", "nope"),
+    ("vt_trapmod_lazy", "LazyExc"), ("vt_trapmod_lazy", "lazy_func"), ("vt_trapmod_lazy", "lazy_sub.run"), ("vt_trapmod_lazy", "nope"), ("vt_trapmod_lazysub", "LazyExc"), ("vt_trapmod_lazysub", "lazy_func"), ("vt_trapmod_lazysub", "computed"),
     ("vt_trapmod", ""), ("", "ValueError"), (None, "SomeRemoteError"), (None, "eval"), (None, "os.system"),
 ]
 JSONV = st.recursive(st.one_of(st.none(), st.booleans(), st.integers(-10**6, 10**6), st.text(max_size=4)),
